@@ -58,7 +58,10 @@ ROUTES = ('ctor', 'set_rules', 'file', 'ctor+own', 'set_rules+own',
           # the process holds TWO enforcers on the same policy file; both
           # have loaded an earlier content, the file is then rewritten and
           # the OTHER enforcer decides first
-          'file-twin')
+          'file-twin',
+          # the policy file does not exist when the enforcer is first used;
+          # it is written afterwards
+          'file-appears')
 
 
 def bound(tier):
@@ -168,6 +171,14 @@ def build(P, parse_rule, ruleset, cfg, route, w):
         for q in QUERIES:
             first.enforce(q, {}, {'roles': []})
         return second
+    if route == 'file-appears':
+        conf = world.new_conf(w.root, **overrides)
+        enf = P.Enforcer(conf, **kw)
+        for q in QUERIES:
+            for _ in (0, 1):
+                enf.enforce(q, {}, {'roles': []})
+        w.write('policy.yaml', world.dumps_policy(ruleset))
+        return enf
     if route == 'file+late':
         in_file = {k: v for k, v in ruleset.items() if k != 'x'}
         w.write('policy.yaml', world.dumps_policy(in_file))
